@@ -338,6 +338,22 @@ func (w *cWorld) exchange(kind int, xid uint32, haveXid bool, t0 uint64, pre tim
 			li.dns = append(li.dns, 0x01010101)
 			w.last = li
 		}
+		// an ACK may leave out what the OFFER or the previous ACK carried: what counts is the most recent ACK alone
+		if r2 := w.r2; r2 != nil && kind != 1 && r2.Intn(3) == 0 {
+			if r2.Intn(2) == 0 {
+				li.mask = nil
+			}
+			if r2.Intn(2) == 0 {
+				li.mtu = 0
+			}
+			if r2.Intn(2) == 0 {
+				li.dns = nil
+			}
+			if r2.Intn(2) == 0 {
+				li.domain = nil
+			}
+			w.last = li
+		}
 		dt := pre + ms(60+r.Intn(1500))
 		junk()
 		typ := byte(5)
